@@ -5,9 +5,11 @@ import (
 	"fmt"
 	"io"
 	"net"
+	"net/netip"
 	"syscall"
 
 	"github.com/talostrading/sonic"
+	"github.com/talostrading/sonic/multicast"
 	"github.com/talostrading/sonic/sonicerrors"
 	"github.com/talostrading/sonic/sonicopts"
 
@@ -30,10 +32,11 @@ const (
 	lkRegular               // file: regular file
 	lkListener              // listener with AsyncAccept
 	lkPacket                // packet conn
+	lkPeer                  // multicast UDP peer
 	lkNumKinds
 )
 
-var lKindNames = [...]string{"conn-dialed", "conn-accepted", "adapter", "fifo-read", "fifo-write", "regular-file", "listener", "packet"}
+var lKindNames = [...]string{"conn-dialed", "conn-accepted", "adapter", "fifo-read", "fifo-write", "regular-file", "listener", "packet", "mcast-peer"}
 
 func (k lKind) String() string { return lKindNames[k] }
 func (k lKind) stream() bool   { return k == lkConnDial || k == lkConnAcc || k == lkAdapter }
@@ -80,6 +83,7 @@ type lObj struct {
 	fd       sonic.FileDescriptor
 	lis      sonic.Listener
 	pc       sonic.PacketConn
+	peer     *multicast.UDPPeer
 	rawFd    int
 	gen      int
 	closed   bool // Close has returned
@@ -99,6 +103,7 @@ type lObj struct {
 	pending  []*sim.TCPEnd // listener: actor clients not yet accepted
 	dgramSeq int
 	everFailed bool
+	fdGone   bool // the descriptor was closed underneath the object
 }
 
 type loop struct {
@@ -118,6 +123,8 @@ type loop struct {
 	streamSeed uint64
 	nextPort   int
 	lastPollDispatched bool
+	fifoCap    int // 0: drawn per object
+	ignoreAvoid bool // directed demonstration of an open known finding
 }
 
 var (
@@ -160,6 +167,13 @@ func (s *loop) inStream(o *lObj) uint64  { return uint64(o.ix)*2 + 1 }
 func (s *loop) outStream(o *lObj) uint64 { return uint64(o.ix)*2 + 2 }
 
 var loopIP = [4]byte{127, 0, 0, 1}
+
+func (s *loop) pickFifoCap() int {
+	if s.fifoCap > 0 {
+		return s.fifoCap
+	}
+	return s.w.Pick(65536, 1, 7, 64, 4096)
+}
 
 // ---------------------------------------------------------------------------
 // object construction
@@ -218,9 +232,15 @@ func (s *loop) addObj(k lKind) *lObj {
 		})
 		o.rawFd = o.fd.RawFd()
 		w.K.SetNonblock(o.rawFd, true)
+		// net.Conn.Write blocks the calling goroutine - here the whole loop -
+		// until everything is written, so the remote process must keep reading
+		// on its own or the simulated world deadlocks by construction.
+		o.end.OnData = func() {
+			w.After(0, "adapter-peer-drains", func() { s.peerDrain(o, 1<<20) })
+		}
 	case lkFifoR:
 		o.path = fmt.Sprintf("/fifo%d", o.ix)
-		o.fifo = w.K.MkFifo(o.path, w.Pick(65536, 1, 7, 64, 4096))
+		o.fifo = w.K.MkFifo(o.path, s.pickFifoCap())
 		o.fifo.ActorOpenWriter()
 		f, err := sonic.Open(s.ioc, o.path, syscall.O_RDONLY|syscall.O_NONBLOCK, 0)
 		if err != nil {
@@ -230,7 +250,7 @@ func (s *loop) addObj(k lKind) *lObj {
 		o.rawFd = f.RawFd()
 	case lkFifoW:
 		o.path = fmt.Sprintf("/fifo%d", o.ix)
-		o.fifo = w.K.MkFifo(o.path, w.Pick(65536, 1, 7, 64, 4096))
+		o.fifo = w.K.MkFifo(o.path, s.pickFifoCap())
 		o.fifo.ActorOpenReader()
 		f, err := sonic.Open(s.ioc, o.path, syscall.O_WRONLY|syscall.O_NONBLOCK, 0)
 		if err != nil {
@@ -263,6 +283,13 @@ func (s *loop) addObj(k lKind) *lObj {
 		}
 		o.pc = pc
 		o.rawFd = pc.RawFd()
+	case lkPeer:
+		p, err := multicast.NewUDPPeer(s.ioc, "udp", fmt.Sprintf("127.0.0.1:%d", o.port))
+		if err != nil {
+			sim.Bug("NewUDPPeer: %v", err)
+		}
+		o.peer = p
+		o.rawFd = p.NextLayer().RawFd()
 	}
 	if k.stream() {
 		if o.end == nil {
@@ -283,6 +310,9 @@ func (s *loop) addObj(k lKind) *lObj {
 // starting operations
 
 func (s *loop) newOp(o *lObj, k lOpKind, size int, beh int) *lOp {
+	if o.closed {
+		sim.Bug("operation started on closed object %d", o.ix)
+	}
 	op := &lOp{id: len(s.ops), obj: o, kind: k, beh: beh, startDepth: s.depth}
 	if size > 0 {
 		op.buf = make([]byte, size)
@@ -328,7 +358,7 @@ func (s *loop) canRead(o *lObj) bool {
 		return false
 	case lkRegular:
 		// open known finding: a regular file cannot be deferred to epoll
-		if s.c.Avoid["regular-file-at-dispatch-limit"] && s.ioc.Dispatched >= sonic.MaxCallbackDispatch {
+		if s.c.Avoid["regular-file-at-dispatch-limit"] && !s.ignoreAvoid && s.ioc.Dispatched >= sonic.MaxCallbackDispatch {
 			return false
 		}
 	}
@@ -364,6 +394,13 @@ func (s *loop) startRead(o *lObj, all bool, size int, beh int) *lOp {
 		})
 		s.afterStart(op)
 		return op
+	case lkPeer:
+		op := s.newOp(o, opReadFrom, size, beh)
+		o.peer.AsyncRead(op.buf, func(err error, n int, from netip.AddrPort) {
+			s.complete(op, err, n)
+		})
+		s.afterStart(op)
+		return op
 	}
 	k := opRead
 	if all {
@@ -384,6 +421,15 @@ func (s *loop) startRead(o *lObj, all bool, size int, beh int) *lOp {
 }
 
 func (s *loop) startWrite(o *lObj, all bool, size int, beh int) *lOp {
+	if o.kind == lkPeer {
+		op := s.newOp(o, opWriteTo, size, beh)
+		s.fill(op.buf, s.outStream(o), int64(o.dgramSeq)*70000)
+		o.dgramSeq++
+		to := netip.AddrPortFrom(netip.AddrFrom4([4]byte{10, 0, 0, 99}), 9999)
+		o.peer.AsyncWrite(op.buf, to, func(err error, n int) { s.complete(op, err, n) })
+		s.afterStart(op)
+		return op
+	}
 	if o.kind == lkPacket {
 		op := s.newOp(o, opWriteTo, size, beh)
 		s.fill(op.buf, s.outStream(o), int64(o.dgramSeq)*70000)
@@ -509,6 +555,9 @@ func (s *loop) checkCompletion(op *lOp) {
 				c.Failf("count-exceeds-transferred/"+name, "op %d failed (%v) reporting n=%d, the kernel moved only %d bytes", op.id, op.err, op.n, moved)
 			}
 		}
+		if op.err != nil && !o.peerFin && !o.peerClosed && !o.peerRst && !o.fdGone {
+			c.Failf("error-on-healthy-stream/"+name, "op %d failed with %v (n=%d) although the peer neither closed nor reset the connection and the kernel reported no error", op.id, op.err, op.n)
+		}
 		if op.err == nil {
 			if op.n == 0 {
 				c.Failf("zero-bytes-nil-error/"+name, "op %d completed with (nil, 0)", op.id)
@@ -532,6 +581,9 @@ func (s *loop) checkCompletion(op *lOp) {
 		}
 		if o.outBroken {
 			return
+		}
+		if op.err != nil && !o.peerFin && !o.peerClosed && !o.peerRst && !o.fdGone {
+			c.Failf("error-on-healthy-stream/"+name, "op %d failed with %v (n=%d) although the peer neither closed nor reset the connection and the kernel reported no error", op.id, op.err, op.n)
 		}
 		if o.myEnd != nil {
 			moved := o.myEnd.Accepted - op.movedAtStart
@@ -587,7 +639,7 @@ func (s *loop) doCancel(o *lObj) {
 		if op.completions != 1 {
 			c.Failf("cancel-did-not-complete/"+o.kind.String()+"/"+lOpNames[op.kind], "Cancel on %s returned but in-flight operation %d has %d completions", o.kind, op.id, op.completions)
 		}
-		if !errors.Is(op.err, sonicerrors.ErrCancelled) {
+		if !errors.Is(op.err, sonicerrors.ErrCancelled) && !o.fdGone {
 			c.Failf("cancel-wrong-error/"+o.kind.String()+"/"+lOpNames[op.kind], "Cancel completed operation %d with err=%v (n=%d), want ErrCancelled", op.id, op.err, op.n)
 		}
 	}
@@ -611,6 +663,8 @@ func (s *loop) doClose(o *lObj) {
 		err = o.lis.Close()
 	case o.pc != nil:
 		err = o.pc.Close()
+	case o.peer != nil:
+		err = o.peer.Close()
 	}
 	_ = err
 	o.closed = true
@@ -709,7 +763,7 @@ func (s *loop) peerConnect(o *lObj) {
 }
 
 func (s *loop) peerDatagram(o *lObj, n int) {
-	if o.kind != lkPacket || o.closed {
+	if (o.kind != lkPacket && o.kind != lkPeer) || o.closed {
 		return
 	}
 	b := make([]byte, n)
